@@ -374,7 +374,7 @@ theorem triple_admissible (s : Str) (unq tri : Bool) (q : CU) (p : Presentation)
   have hst := C18_stats_exact s unq tri LINE
   have key : Model.tripleOk q s = true ∧
       (if (counters s).numLines = 1 then (counters s).maxLine + 6 ≤ LINE
-       else (counters s).firstLine + 3 < LINE ∧ (counters s).thisLine + 3 < LINE ∧ (counters s).maxLine ≤ LINE) := by
+       else (counters s).firstLine + 3 ≤ LINE ∧ (counters s).thisLine + 3 < LINE ∧ (counters s).maxLine ≤ LINE) := by
     rcases hr with ⟨h, hq, _⟩ | ⟨h, hq, _⟩
     · subst hq; exact hadm.2.2.2.1 h
     · subst hq; exact hadm.2.2.2.2 h
@@ -467,6 +467,7 @@ theorem writeChar_presented_nt (c : Ctx) (s : Str) (q allowText : Bool) (out : S
     (hok : okUnits (diaOf c) none s = true) (hcol : c.lastColumn ≤ LINE)
     (hd : (analyze s (!q) (!c.isCif1) LINE).delimLength ≠ 2)
     (h : writeChar c s q allowText = .ok (out, c')) : PresentedNT (diaOf c) c s q out := by
+  have h := (writeChar_ok c s q allowText (out, c') h).2
   have hv : ¬(c.isCif1 = true ∧ validate11 s = false) := by
     intro hv; rw [writeChar_invalid c s q allowText hv] at h; cases h
   obtain ⟨hdel, hlen⟩ := analyze_delim s (!q) (!c.isCif1) LINE
